@@ -75,17 +75,15 @@ def InsideYear (a : Alt) : Prop :=
   ∀ y : Int, daysBeforeYear y * 86400 + 86400 < startAt a y ∧ startAt a y < daysBeforeYear (y + 1) * 86400 - 86400 ∧
              daysBeforeYear y * 86400 + 86400 < endAt a y ∧ endAt a y < daysBeforeYear (y + 1) * 86400 - 86400
 
-/-- daylight time is in force on `[start y, end y)` of each year when the start precedes the end in
-the year, and outside `[end y, start y)` otherwise (southern-hemisphere shape) -/
-def IsDst (a : Alt) (t : Int) : Prop :=
-  ∃ y : Int, (startAt a y ≤ endAt a y ∧ startAt a y ≤ t ∧ t < endAt a y) ∨
-             (endAt a y < startAt a y ∧ startAt a y ≤ t ∧ t < endAt a (y + 1))
-
-/-- executable form for rules satisfying `InsideYear`: only the year containing `t` matters -/
-def ruleDst (a : Alt) (t : Int) : Bool :=
-  let y := yearOf (t / 86400)
+/-- daylight time at `t` judged by the rule transitions of year `y` alone: in force on
+`[start y, end y)` when the start precedes the end in the year, and outside `[end y, start y)`
+otherwise (southern-hemisphere shape) -/
+def ruleDstIn (a : Alt) (y : Int) (t : Int) : Bool :=
   if startAt a y ≤ endAt a y then decide (startAt a y ≤ t ∧ t < endAt a y)
   else !decide (endAt a y ≤ t ∧ t < startAt a y)
+
+/-- executable form for rules satisfying `InsideYear`: only the year containing `t` matters -/
+def ruleDst (a : Alt) (t : Int) : Bool := ruleDstIn a (yearOf (t / 86400)) t
 
 def ruleOff (r : Rule) (t : Int) : Ltt :=
   match r with
@@ -152,5 +150,25 @@ def sepFrom (z : Zone) : List Transition → Int → Option Int → Bool
 
 def wellSeparatedB (z : Zone) : Bool := sepFrom z z.transitions (typeAt z 0).off none
 def WellSeparated (z : Zone) : Prop := wellSeparatedB z = true
+
+
+/-- what the property demands of a lookup by wall clock, stated on the step function `off` itself:
+`none` = no instant reads `ℓ`; `single x` = exactly one instant reads `ℓ`, and it is `ℓ - x.off`;
+`ambiguous x y` = exactly two, `ℓ - x.off` strictly earlier than `ℓ - y.off` -/
+def Classifies (off : Int → Int) (ℓ : Int) : Mapped Ltt → Prop
+  | .none => ∀ t, t + off t ≠ ℓ
+  | .single x => ∀ t, t + off t = ℓ ↔ t = ℓ - x.off
+  | .ambiguous x y => ℓ - x.off < ℓ - y.off ∧ ∀ t, t + off t = ℓ ↔ (t = ℓ - x.off ∨ t = ℓ - y.off)
+
+/-- the rule's step function within one year, in terms of the wall-clock start `S` (standard time)
+and end `E` (daylight time) of daylight time in that year -/
+def yearOff (a : Alt) (S E : Int) (t : Int) : Int :=
+  if S < E then (if S - a.std.off ≤ t ∧ t < E - a.dst.off then a.dst.off else a.std.off)
+  else (if E - a.dst.off ≤ t ∧ t < S - a.std.off then a.std.off else a.dst.off)
+
+/-- the two rule transitions of the year are further apart than twice the offset jump -/
+def RuleSeparated (a : Alt) (S E : Int) : Prop :=
+  (S < E → 2 * (a.dst.off - a.std.off) < E - S ∧ 2 * (a.std.off - a.dst.off) < E - S) ∧
+  (¬ S < E → 2 * (a.dst.off - a.std.off) < S - E ∧ 2 * (a.std.off - a.dst.off) < S - E)
 
 end Chrono.Spec.Zone
